@@ -222,7 +222,18 @@ def F24():
     return False
 
 
-ALL = ['F1', 'F2', 'F4', 'F5', 'F6', 'F8', 'F9', 'F11', 'F12', 'F13', 'F15', 'F16', 'F17', 'F18', 'F19', 'F20', 'F21', 'F22', 'F23', 'F24']
+def F25():
+    """StudentT on constant data: the serialised location must be the constant."""
+    from copulas.univariate import StudentTUnivariate, Univariate
+    import warnings
+    warnings.filterwarnings('ignore')
+    m = StudentTUnivariate()
+    m.fit(np.full(8, 1e6))
+    m2 = Univariate.from_dict(m.to_dict())
+    return m2.percent_point(np.array([0.5]))[0] != 1e6
+
+
+ALL = ['F1', 'F2', 'F4', 'F5', 'F6', 'F8', 'F9', 'F11', 'F12', 'F13', 'F15', 'F16', 'F17', 'F18', 'F19', 'F20', 'F21', 'F22', 'F23', 'F24', 'F25']
 if __name__ == '__main__':
     for name in (sys.argv[1:] or ALL):
         try:
